@@ -26,6 +26,7 @@ def run(ctx, rep):
         check_chars(crate, rep, cfg)
         check_arith_cast(crate, rep, cfg)
         check_zero(crate, rep, cfg)
+        check_len_agreement(crate, rep, cfg)
 
 
 def is_char_index_call(name):
@@ -244,3 +245,51 @@ def check_zero(crate, rep, cfg):
                 n += 1
     rep.add("C14.ZERO", "C14.ZERO:vm:undefined-bounds", n >= 3, vm.where(0), "the VM's Slice arm reports undefined start / end / step as errors (%d message sites)" % n
             + ("" if n >= 3 else " — VIOLATED"))
+
+
+def check_len_agreement(crate, rep, cfg):
+    """C14.LEN — the length against which an index is normalised is the length of the very sequence that is then indexed with the result
+    (negative indices count from the end of *that* sequence: characters for a string, not bytes)."""
+    n = 0
+    for b in crate.bodies.values():
+        if b.kind == "const":
+            continue
+        sites = [(bb, t) for bb, t in b.calls() if callee_def(t).endswith("value::resolve_index")]
+        if not sites:
+            continue
+        rep.analysed(b)
+        tr = Tracer(b)
+
+        def origin(leaves):
+            return {(l.kind, l.detail if l.kind != "call" else (l.detail[0], l.detail[2]), tuple(p for p in l.projs if p.startswith((".", "as:")))) for l in leaves if l.kind != "cycle"}
+        for k, (bb, t) in enumerate(sites):
+            n += 1
+            key = "C14.LEN:%s:resolve_index#%d" % (crate.root_of(b).path, k)
+            lens = tr.operand(t["args"][1])
+            ok = bool(lens) and all(l.kind == "call" and l.detail[0].endswith("::len") and not l.projs for l in lens)
+            why = "the length argument is not the len() of a sequence"
+            if ok:
+                recv = set()
+                for l in lens:
+                    lt = b.term(l.detail[2])
+                    recv |= origin(tr.operand(lt["args"][0]))
+                    # the sequence must be one of elements the caller indexes by position: a Vec / slice, not a string's byte length
+                    rty = lt["atys"][0] if lt["atys"] else ""
+                    if not ("Vec<" in rty or rty.startswith("&[") or "[" in rty):
+                        ok = False
+                        why = "the length is taken from `%s` (not a sequence of elements)" % rty[:50]
+                uses = []
+                for b2, t2 in b.calls():
+                    if callee_def(t2) in ("std::ops::Index::index", "std::ops::IndexMut::index_mut") and len(t2["args"]) > 1:
+                        il = tr.operand(t2["args"][1])
+                        if il and any(l.kind == "call" and l.detail[2] == bb for l in il):
+                            uses.append((b2, t2))
+                if ok and not uses:
+                    ok = False
+                    why = "the resolved index is not used to index a sequence here"
+                for b2, t2 in uses:
+                    if ok and origin(tr.operand(t2["args"][0])) != recv:
+                        ok = False
+                        why = "the sequence indexed at %s is not the one whose length was passed" % b.where(b2)
+            rep.add("C14.LEN", key, ok, b.where(bb), "resolve_index is given the len() of the very Vec/slice that its result then indexes" + ("" if ok else " — VIOLATED: " + why))
+    rep.floor("C14.LEN", "resolve_index call sites [%s]" % cfg, n, 2)
